@@ -21,19 +21,20 @@ type heldLock struct {
 }
 
 type ctx struct {
-	phase    string // constructor | bind | traffic-closure | loop-goroutine | getter | close
-	class    int    // classAny, classSetup or the id of a singleton thread class
-	home     string // type the singleton class belongs to
-	ctorRoot bool   // body of a constructor: only fresh locals are setup-phase
-	inh      []heldLock
-	anns     []int
-	embOwner string // the receiver is a struct VALUE stored in field embPrefix of an object of this type
-	embPref  string
+	phase     string // constructor | bind | traffic-closure | loop-goroutine | getter | close
+	class     int    // classAny, classSetup or the id of a singleton thread class
+	home      string // type the singleton class belongs to
+	ctorRoot  bool   // body of a constructor: only fresh locals are setup-phase
+	inh       []heldLock
+	anns      []int
+	localRecv bool   // the receiver points into a thread-local struct value of the caller
+	embOwner  string // the receiver is a struct VALUE stored in field embPrefix of an object of this type
+	embPref   string
 }
 
 func (c ctx) key() string {
 	var sb strings.Builder
-	fmt.Fprintf(&sb, "%s|%d|%s|%v|%s|%s|", c.phase, c.class, c.home, c.ctorRoot, c.embOwner, c.embPref)
+	fmt.Fprintf(&sb, "%s|%d|%s|%v|%s|%s|", c.phase, c.class, c.home, c.ctorRoot, c.embOwner, c.embPref+fmt.Sprint(c.localRecv))
 	for _, h := range c.inh {
 		fmt.Fprintf(&sb, "%s:%s:%c,", h.owner, h.name, h.mode)
 	}
@@ -379,18 +380,23 @@ func (sc *scanner) roots() {
 	}
 }
 
-// spawnByUnit finds the go statement lexically inside the function named name (exactly one must exist).
-func (sc *scanner) spawnByUnit(name string) (int, bool) {
-	found, n := -1, 0
+// spawnByUnit finds a go statement by "pkg.Func#n": the n-th go statement (lexical order, from 1) in that function.
+func (sc *scanner) spawnByUnit(spec string) (int, bool) {
+	name, n := spec, 1
+	if k := strings.LastIndex(spec, "#"); k >= 0 {
+		name = spec[:k]
+		fmt.Sscanf(spec[k+1:], "%d", &n)
+	}
+	found, cnt := -1, 0
 	for _, u := range sc.units {
 		if u.decl == nil || u.name != name {
 			continue
 		}
 		ast.Inspect(u.body, func(m ast.Node) bool {
 			if g, ok := m.(*ast.GoStmt); ok {
-				if want := sc.spawnPick[name]; want == "" || strings.Contains(types.ExprString(g.Call.Fun), want) {
+				cnt++
+				if cnt == n {
 					found = sc.goIDs[g]
-					n++
 				}
 			}
 
@@ -398,21 +404,26 @@ func (sc *scanner) spawnByUnit(name string) (int, bool) {
 		})
 	}
 
-	return found, n == 1
+	return found, found >= 0
 }
 
-// owners lists the types T is (transitively) part of, with the annotations used.
+// owners lists the types T is (transitively) part of, with the annotations used on the way to each.
 func (sc *scanner) owners(t string) ([]string, []*annotation) {
 	var out []string
 	var anns []*annotation
-	for i := 0; i < 8; i++ {
-		a := sc.own.find("part-of", t, "*")
-		if a == nil {
-			break
+	seen := map[string]bool{t: true}
+	todo := []string{t}
+	for len(todo) > 0 {
+		cur := todo[0]
+		todo = todo[1:]
+		for _, a := range sc.own.anns {
+			if a.kind == "part-of" && a.subject == cur && !seen[a.by] {
+				seen[a.by] = true
+				out = append(out, a.by)
+				anns = append(anns, a)
+				todo = append(todo, a.by)
+			}
 		}
-		out = append(out, a.by)
-		anns = append(anns, a)
-		t = a.by
 	}
 
 	return out, anns
@@ -442,15 +453,17 @@ func (sc *scanner) analyze(u *unit, c ctx) {
 // ---------------------------------------------------------------------------
 
 type walker struct {
-	sc     *scanner
-	u      *unit
-	c      ctx
-	info   *types.Info
-	held   []heldLock
-	fresh  map[types.Object]token.Pos // fresh local -> position from which it has escaped (0: not yet known)
-	topGo  []*ast.GoStmt              // go statements executed at most once per call of this unit
-	loopGo map[*ast.GoStmt]bool
-	inLoop int
+	sc      *scanner
+	u       *unit
+	c       ctx
+	info    *types.Info
+	held    []heldLock
+	fresh   map[types.Object]token.Pos // fresh local -> position from which it has escaped (0: not yet known)
+	topGo   []*ast.GoStmt              // go statements executed at most once per call of this unit
+	loopGo  map[*ast.GoStmt]bool
+	inLoop  int
+	ctorArg bool
+	inIf    int // > 0 inside the body of an if: a close(ch) here is a check-then-close
 }
 
 func (w *walker) collectGo(n ast.Node, inLoop bool) {
@@ -708,7 +721,9 @@ func (w *walker) stmt(s ast.Stmt) bool {
 		w.stmt(s.Init)
 		w.expr(s.Cond)
 		saved := cloneLocks(w.held)
+		w.inIf++
 		t1 := w.block(s.Body.List)
+		w.inIf--
 		h1 := w.held
 		w.held = cloneLocks(saved)
 		t2 := false
@@ -1209,7 +1224,7 @@ func (w *walker) lit(lit *ast.FuncLit, role string) {
 	ast.Inspect(lit.Body, func(n ast.Node) bool {
 		if id, ok := n.(*ast.Ident); ok {
 			if obj := w.info.Uses[id]; obj != nil {
-				if p, ok := w.fresh[obj]; ok && p == 0 && role != "sync" {
+				if p, ok := w.fresh[obj]; ok && p == 0 && role != "sync" && !w.ctorArg {
 					w.fresh[obj] = lit.Pos()
 				}
 			}
@@ -1319,7 +1334,7 @@ func (w *walker) callWith(e *ast.CallExpr, goCtx *ctx) {
 				w.expr(e.Args[1])
 			case "close":
 				w.expr(e.Args[0])
-				if s, ok := e.Args[0].(*ast.SelectorExpr); ok {
+				if s, ok := e.Args[0].(*ast.SelectorExpr); ok && w.inIf > 0 {
 					if sel := w.info.Selections[s]; sel != nil && sel.Kind() == types.FieldVal {
 						w.accessNamed(s, s.Sel.Name+"#closed", "rmw", "close(ch) must happen once: check-then-close needs mutual exclusion")
 					}
@@ -1365,13 +1380,26 @@ func (w *walker) callWith(e *ast.CallExpr, goCtx *ctx) {
 		}
 	}
 	// arguments (function literals passed to a call run synchronously, except time.AfterFunc)
-	argLitRole := "sync"
-	if isSel && fs.Sel.Name == "AfterFunc" {
-		argLitRole = "stored"
+	argLitRole := "stored"
+	if isSel {
+		switch fs.Sel.Name {
+		case "Range", "Do", "Slice", "SliceStable", "Sort", "Walk", "Each", "ForEach":
+			argLitRole = "sync" // iteration helpers call the literal before returning
+		}
+	}
+	calleeName := ""
+	switch f := e.Fun.(type) {
+	case *ast.Ident:
+		calleeName = f.Name
+	case *ast.SelectorExpr:
+		calleeName = f.Sel.Name
 	}
 	for _, a := range e.Args {
 		if lit, ok := a.(*ast.FuncLit); ok {
+			// a literal handed to a constructor is stored in the new, still unpublished object
+			w.ctorArg = strings.HasPrefix(calleeName, "new") || strings.HasPrefix(calleeName, "New")
 			w.lit(lit, argLitRole)
+			w.ctorArg = false
 
 			continue
 		}
@@ -1419,7 +1447,7 @@ func (w *walker) callWith(e *ast.CallExpr, goCtx *ctx) {
 	if u, ok := w.sc.funcs[callee]; ok {
 		targets = append(targets, u)
 	} else if recvExpr != nil {
-		if it, ok := w.info.TypeOf(recvExpr).Underlying().(*types.Interface); ok {
+		if it, ok := w.info.TypeOf(recvExpr).Underlying().(*types.Interface); ok && w.localIface(w.info.TypeOf(recvExpr)) {
 			targets = w.sc.implementers(it, callee.Name())
 		}
 	}
@@ -1478,6 +1506,17 @@ func (w *walker) recvAccess(x ast.Expr, callee *types.Func, tracked bool) {
 	w.expr(x)
 }
 
+// localIface: class-hierarchy resolution is applied to interfaces declared in the scanned packages only;
+// who implements interceptor.RTPWriter etc. further down the chain is outside this analysis.
+func (w *walker) localIface(t types.Type) bool {
+	n, ok := t.(*types.Named)
+	if !ok {
+		return true
+	}
+
+	return n.Obj().Pkg() != nil && isTarget(n.Obj().Pkg().Path())
+}
+
 func (sc *scanner) implementers(it *types.Interface, method string) []*unit {
 	var out []*unit
 	names := make([]*types.TypeName, 0, len(sc.structs))
@@ -1510,21 +1549,31 @@ func (sc *scanner) implementers(it *types.Interface, method string) []*unit {
 // belong to an argument.
 func (w *walker) calleeCtx(t *unit, recvExpr ast.Expr, args []ast.Expr) ctx {
 	nc := ctx{phase: w.c.phase, class: w.c.class, home: w.c.home, anns: w.c.anns}
-	if w.c.ctorRoot {
+	freshArg := false
+	for _, a := range append([]ast.Expr{recvExpr}, args...) {
+		if a == nil {
+			continue
+		}
+		if id := rootIdent(a); id != nil && w.isFresh(id) {
+			freshArg = true
+		}
+	}
+	if recvExpr != nil {
+		if id := rootIdent(recvExpr); id != nil && w.isFresh(id) {
+			// method of an object this function has allocated and not yet published
+			nc.class, nc.phase, nc.home = classSetup, "constructor", ""
+		}
+		if id := rootIdent(recvExpr); id != nil && w.isLocalVar(id) && w.valuePath(recvExpr) {
+			nc.localRecv = true // receiver points into a struct value held in a local variable
+		}
+		if id, ok := recvExpr.(*ast.Ident); ok && w.c.localRecv && w.u.recv != nil && w.canon(id) == varCanon(w.u.recv) {
+			nc.localRecv = true
+		}
+	}
+	if w.c.ctorRoot && !freshArg && (recvExpr != nil || len(args) > 0) {
 		// constructor body: the callee works on a fresh object only if one is passed
-		freshArg := false
-		for _, a := range append([]ast.Expr{recvExpr}, args...) {
-			if a == nil {
-				continue
-			}
-			if id := rootIdent(a); id != nil && w.isFresh(id) {
-				freshArg = true
-			}
-		}
-		if !freshArg && (recvExpr != nil || len(args) > 0) {
-			nc.class = classAny
-			nc.phase = "getter"
-		}
+		nc.class = classAny
+		nc.phase = "getter"
 	}
 	type ren struct{ from, to string }
 	var rens []ren
@@ -1547,9 +1596,31 @@ func (w *walker) calleeCtx(t *unit, recvExpr ast.Expr, args []ast.Expr) ctx {
 			}
 		}
 	}
+	if id, ok := recvExpr.(*ast.Ident); ok && w.c.embOwner != "" && w.u.recv != nil && w.canon(id) == varCanon(w.u.recv) {
+		nc.embOwner, nc.embPref = w.c.embOwner, w.c.embPref
+	}
+	if ix, ok := recvExpr.(*ast.IndexExpr); ok {
+		if t2 := w.info.TypeOf(ix.X); t2 != nil {
+			if _, isArr := t2.Underlying().(*types.Array); isArr {
+				recvExpr = ix.X // element of an array VALUE: part of the same memory object
+			}
+		}
+	}
 	if rs, ok := recvExpr.(*ast.SelectorExpr); ok && t.recv != nil {
 		if sel := w.info.Selections[rs]; sel != nil && sel.Kind() == types.FieldVal {
-			if _, isStruct := sel.Obj().Type().Underlying().(*types.Struct); isStruct {
+			ft := sel.Obj().Type().Underlying()
+			if at, isArr := ft.(*types.Array); isArr {
+				ft = at.Elem().Underlying()
+			}
+			_, isStruct := ft.(*types.Struct)
+			if osi := w.sc.fieldOwner[sel.Obj().(*types.Var)]; osi != nil && !isStruct {
+				if a := w.sc.own.find("private-field", osi.name+"."+rs.Sel.Name, ""); a != nil {
+					a.used++
+					nc.anns = append(append([]int{}, nc.anns...), a.idx)
+					isStruct = true // the pointed-to object is private to the container (annotation)
+				}
+			}
+			if isStruct {
 				if osi := w.sc.fieldOwner[sel.Obj().(*types.Var)]; osi != nil {
 					// receiver is a struct value inside rs.X: same memory object, the container's locks protect it
 					nc.embOwner, nc.embPref = osi.name, rs.Sel.Name
@@ -1616,8 +1687,17 @@ func (w *walker) accessNamed(s *ast.SelectorExpr, pseudo, kind, note string) {
 	// structural containment: a field of a struct VALUE stored in a field of another tracked struct is
 	// part of that object's memory; the row is attributed to the container (type, "outer.inner")
 	baseExpr := ast.Expr(s.X)
+	var relAnns []int
 	for {
-		se, ok := ast.Unparen(baseExpr).(*ast.SelectorExpr)
+		be := ast.Unparen(baseExpr)
+		if ix, ok := be.(*ast.IndexExpr); ok {
+			if t2 := w.info.TypeOf(ix.X); t2 != nil {
+				if _, isArr := t2.Underlying().(*types.Array); isArr {
+					be = ast.Unparen(ix.X)
+				}
+			}
+		}
+		se, ok := be.(*ast.SelectorExpr)
 		if !ok {
 			break
 		}
@@ -1625,7 +1705,21 @@ func (w *walker) accessNamed(s *ast.SelectorExpr, pseudo, kind, note string) {
 		if sel2 == nil || sel2.Kind() != types.FieldVal {
 			break
 		}
-		if _, isStruct := sel2.Obj().Type().Underlying().(*types.Struct); !isStruct {
+		ft := sel2.Obj().Type().Underlying()
+		if at, isArr := ft.(*types.Array); isArr {
+			ft = at.Elem().Underlying()
+		}
+		_, isStruct := ft.(*types.Struct)
+		if !isStruct {
+			if osi := w.sc.fieldOwner[sel2.Obj().(*types.Var)]; osi != nil {
+				if a := w.sc.own.find("private-field", osi.name+"."+se.Sel.Name, ""); a != nil {
+					a.used++
+					relAnns = append(relAnns, a.idx)
+					isStruct = true
+				}
+			}
+		}
+		if !isStruct {
 			break
 		}
 		osi := w.sc.fieldOwner[sel2.Obj().(*types.Var)]
@@ -1642,6 +1736,13 @@ func (w *walker) accessNamed(s *ast.SelectorExpr, pseudo, kind, note string) {
 		}
 	}
 	root := rootIdent(s.X)
+	if w.c.localRecv && w.u.recv != nil && w.u.lit == nil {
+		if id, ok := ast.Unparen(baseExpr).(*ast.Ident); ok && w.canon(id) == varCanon(w.u.recv) {
+			w.sc.skippedLocal++
+
+			return
+		}
+	}
 	if root != nil && w.isLocalVar(root) && w.valuePath(s.X) && !sel.Indirect() {
 		w.sc.skippedLocal++ // a struct value held in a local variable: thread-local copy
 
@@ -1650,6 +1751,7 @@ func (w *walker) accessNamed(s *ast.SelectorExpr, pseudo, kind, note string) {
 	phase, class := w.c.phase, w.c.class
 	var anns []int
 	anns = append(anns, w.c.anns...)
+	anns = append(anns, relAnns...)
 	freshBase := root != nil && w.isFresh(root)
 	switch {
 	case freshBase:
@@ -1663,7 +1765,7 @@ func (w *walker) accessNamed(s *ast.SelectorExpr, pseudo, kind, note string) {
 		for i, o := range owners {
 			if o == w.c.home {
 				ok = true
-				for _, a := range oanns[:i+1] {
+				for _, a := range oanns[:min(i+1, len(oanns))] {
 					a.used++
 					anns = append(anns, a.idx)
 				}
@@ -1677,7 +1779,7 @@ func (w *walker) accessNamed(s *ast.SelectorExpr, pseudo, kind, note string) {
 				ok = true
 				a.used++
 				anns = append(anns, a.idx)
-				for _, pa := range oanns[:i] {
+				for _, pa := range oanns[:min(i, len(oanns))] {
 					pa.used++
 					anns = append(anns, pa.idx)
 				}
@@ -1704,7 +1806,7 @@ func (w *walker) accessNamed(s *ast.SelectorExpr, pseudo, kind, note string) {
 			for i, o := range owners {
 				if o == lt {
 					found = true
-					for _, a := range oanns[:i+1] {
+					for _, a := range oanns[:min(i+1, len(oanns))] {
 						a.used++
 						anns = append(anns, a.idx)
 					}
